@@ -156,6 +156,8 @@ def classify_exception(exc):
 
 def run_one(mod, pid, seed, tier, case, timeout):
     ctx = Ctx(pid, seed, tier, case)
+    from vf.gen import common as _gen_common
+    _gen_common.TIER = tier
     t0 = time.time()
 
     def on_alarm(signum, frame):
